@@ -1,0 +1,68 @@
+//go:build verif
+
+package graph
+
+// Hooks for the verification framework in /verif (build tag verif; add-only file shared by the
+// checks of several properties: append new functions, never rewrite those of another property).
+
+// VerifRefine (property C01) runs equitableRefinementProcedure alone, without a current best leaf
+// (so it never stops early), first on the initial ordered partition of the graph with the given
+// neighbourhoods and vertex classes (nil = one class), then after each individualisation in
+// picks: picks[k] is an index inside the first cell with more than one element (the cell the
+// depth-first search of CanonicalIsomorphAllocated splits), the element at that index is made a
+// singleton with splitBin and the partition is refined again. It returns, after each
+// refinement, copies of order and binDividers, and whether binsToCheck was empty. It stops at
+// the first pick that is out of range or when the partition is discrete.
+func VerifRefine(n int, neighbours [][]int, vertexClasses [][]int, picks []int) (orders [][]int, dividers [][]int, drained []bool) {
+	if n == 0 {
+		return nil, nil, nil
+	}
+	m := 0
+	for _, nb := range neighbours {
+		m += len(nb)
+	}
+	m /= 2
+	op := NewOrderedPartition(n, m, vertexClasses)
+	st := NewStorage(n, m)
+	opts := new(CanonicalOptions)
+	snap := func() {
+		orders = append(orders, append([]int(nil), op.order...))
+		dividers = append(dividers, append([]int(nil), op.binDividers...))
+		drained = append(drained, len(op.binsToCheck) == 0)
+	}
+	refine := func() {
+		equitableRefinementProcedure(neighbours, op, st.dws[:n], st.nbs[:n], st.space[:n], st.timesSeen[:n], st.maxCell[:n], st.numberOfMax[:n], nil, nil, opts)
+	}
+	refine()
+	snap()
+	for _, k := range picks {
+		start, target := 0, -1
+		for i, d := range op.binDividers {
+			if d-start > 1 {
+				target = i
+				break
+			}
+			start = d
+		}
+		if target < 0 || k < 0 || k >= op.binDividers[target]-start {
+			break
+		}
+		op.splitBin(start+k, neighbours, nil, nil)
+		refine()
+		snap()
+	}
+	return orders, dividers, drained
+}
+
+// VerifPartitionState (property C02) returns copies of the visible part (the first len elements)
+// of every slice of the ordered partition and its two counters, in the order order, binDividers,
+// binAges, binsToCheck, value, inCell; age, singletonPrefixLength.  Used to compare the state
+// left by NewOrderedPartition / Reset with the array-level model coq/Canon/AutReset.v.
+func VerifPartitionState(op *CanonicalOrderedPartition) (slices [6][]int, age, singletonPrefixLength int) {
+	if op == nil {
+		return
+	}
+	cp := func(a []int) []int { return append([]int{}, a...) }
+	slices = [6][]int{cp(op.order), cp(op.binDividers), cp(op.binAges), cp(op.binsToCheck), cp(op.value), cp(op.inCell)}
+	return slices, op.age, op.singletonPrefixLength
+}
